@@ -109,9 +109,9 @@ def opdesc(sched_op, schedule):
     skirt = parent_op.attrs.get("skirt", None)
     up = 1
     if sched_op.op_type == Op.Conv2DBackpropInputSwitchedBias:
-        up = ofm_shape.height // ifm.shape.height
+        up = ofm_shape.height // sched_op.ifm_read_shape.height
     elif is_nearest(sched_op.resampling_mode):
-        up = round_up_divide(ofm_shape.height, ifm.shape.height)
+        up = round_up_divide(ofm_shape.height, sched_op.ifm_read_shape.height)
     k_height = 1
     if npu_block_type in (NpuBlockType.Pooling, NpuBlockType.ReduceSum):
         k_height = parent_op.attrs["ksize"][1]
@@ -222,6 +222,7 @@ def build_mock_cascade(ops):
                              kernel=NS(stride=NS(y=m.stride, x=m.stride)), op_type=optype,
                              resampling_mode=rmode, reversed_operands=False, index=i)
         so.ifm = NS(shape=ifm_shape, connection=NS(producers=[prev] if prev is not None else []))
+        so.ifm_read_shape = parent_op.read_shapes[0] if parent_op.read_shapes[0] is not None else ifm_shape
         info = NS(cascade=casc, block_config=NS(old_style_representation=lambda: [1, 1, 1, 1]),
                                stripe=Shape4D([1, m.step[0], m.step[1], m.ofm_shape[3]]), ofm_depth_slices=list(m.slices),
                                npu_weights_tensor=None, npu_scales_tensor=None, buffered_weight_tensors=[])
@@ -266,6 +267,7 @@ def _k_of(op):
 def extract(res):
     """For every captured stream: per NPU stripe the facts the Lean Spec needs, per cascade the operator
     descriptors (for the model's issue order) and the real issue order."""
+    from ethosu.vela import cascade_builder
     from ethosu.vela.high_level_command_stream import DMA, NpuStripe
     from ethosu.vela.operation import NpuBlockType
     from ethosu.vela.tensor import TensorPurpose
@@ -373,7 +375,8 @@ def extract(res):
                         t = g[i].parent_op.ifm if not g[i].reversed_operands else g[i].parent_op.ifm2
                         buf.append({"p": [int(pi.stripe.height), int(pi.stripe.width), int(pi.stripe.depth)],
                                     "c": [int(ci.stripe_input.height), int(ci.stripe_input.width)],
-                                    "stor": [int(x) for x in t.storage_shape], "full_h": int(g[i].ifm.shape.height)})
+                                    "stor": [int(x) for x in t.storage_shape], "full_h": int(g[i].ifm.shape.height),
+                                    "over": int(cascade_builder.ifm_box_overread(g[i])) if hasattr(cascade_builder, "ifm_box_overread") else 0})
                     except Exception:
                         pass
                 cascades.append({"n": len(g), "linear": bool(linear), "descs": descs, "real": real, "buffers": buf,
@@ -381,14 +384,46 @@ def extract(res):
                                  "memcpy": any(so.parent_op.type.name == "Memcpy" for so in g)})
         except Exception as e:  # schedule introspection is best effort; the stripe records are the artefact
             cascades.append({"error": repr(e)[:200]})
-        streams.append({"stripes": stripes, "cascades": cascades})
+        import hashlib
+        streams.append({"stripes": stripes, "cascades": cascades,
+                        "words_sha1": hashlib.sha1(",".join(map(str, art.words or [])).encode()).hexdigest()})
     return streams
+
+
+# ------------------------------------------------------------------------------------------------
+# exact condition of the cascade rolling-buffer defect (Props/C10 rolling_sufficient_of_slack), shared with C03
+
+
+def round_up(a, b):
+    return (a + b - 1) // b * b
+
+
+def rolling_defect(idx, metas):
+    """True iff the NPU operation `idx` (pipeline.op_meta records of one stream) reads a rolling buffer of the documented size
+    round_up(p + c, c) whose consumer over-reads its IFM box by more than 1 + the round-up slack:
+        stride + skirt_top + skirt_bottom - k_dil > 1 + (B - p - c)
+    — the exact inequality under which `rolling_buffer_shape(p, c)` (before its repair) was too small."""
+    cons = metas[idx]
+    if not cons.get("cascade") or cons.get("skirt_top") is None or cons.get("ifm_storage_h") is None or not cons.get("ifm_shape"):
+        return False
+    prods = [m for m in metas if m.get("ofm_eq") == cons["ifm_eq"] and m.get("ofm_box") and len(m["ofm_box"][0]) == 4]
+    mine = [m for m in metas if m.get("ps_id") == cons["ps_id"] and m.get("ofm_box") and len(m["ofm_box"][0]) == 4]
+    if not prods or not mine:
+        return False
+    p = max(m["ofm_box"][1][1] - m["ofm_box"][0][1] for m in prods)
+    q = max(m["ofm_box"][1][1] - m["ofm_box"][0][1] for m in mine)
+    kdil = (cons["k_h"] - 1) * cons["dil_y"] + 1
+    H = cons["ifm_shape"][1]
+    c = min((q - 1) * cons["stride_y"] + kdil, H)
+    B = cons["ifm_storage_h"]
+    over = cons["stride_y"] + cons["skirt_top"] + cons["skirt_bottom"] - kdil
+    return B < H and B == round_up(p + c, c) and over > 1 + (B - p - c)
 
 
 # ------------------------------------------------------------------------------------------------
 # extra network profiles for C10 (used through pipe_common with make_net / sample_config replaced)
 
-C10_PROFILES = ["c10_pad_tall", "c10_slice", "c10_upscale", "c10_dilated", "c10_pool_chain"]
+C10_PROFILES = ["c10_pad_tall", "c10_slice", "c10_upscale", "c10_dilated", "c10_pool_chain", "c10_slice_upscale"]
 
 
 def make_net_c10(rng, idx, profile):
@@ -441,6 +476,22 @@ def make_net_c10(rng, idx, profile):
         cur = new if new is not None else cur
         cur = b.conv(cur, c, (3, 3), (1, 1), (1, 1), "SAME") or cur
         b.net.desc.append(f"slice in={[1, h, w, c]} begin={(b0, b1)} k={k}")
+        return b.finish([cur])
+    if profile == "c10_slice_upscale":
+        b = netgen.B(rng, f"slup{idx}", "int8")
+        h, w, c = rng.choice([6, 8, 12, 16]), rng.choice([4, 8, 16]), rng.choice([8, 16])
+        x = b.input([1, h, w, c])
+        cur = b.conv(x, c, (3, 3), (1, 1), (1, 1), "SAME") if rng.random() < 0.5 else x
+        b0, b1 = rng.randint(0, 3), rng.randint(0, 2)
+        cur = b.strided_slice(cur, [0, b0, b1, 0], [1, h - rng.randint(0, 2), w - rng.randint(0, 1), c])
+        if rng.random() < 0.5:
+            new = b.transpose_conv(cur, c, rng.choice([(2, 2), (3, 3), (4, 4)]), (2, 2), rng.choice(["SAME", "VALID"]))
+        else:
+            new = b.resize(cur, 2, rng.choice(["RESIZE_BILINEAR", "RESIZE_NEAREST_NEIGHBOR"]),
+                           *rng.choice([(False, False), (True, False), (False, True)]))
+        cur = new if new is not None else cur
+        cur = b.conv(cur, c, (3, 3), (1, 1), (1, 1), "SAME") or cur
+        b.net.desc.append(f"slice_upscale in={[1, h, w, c]} begin={(b0, b1)}")
         return b.finish([cur])
     if profile == "c10_upscale":
         b = netgen.B(rng, f"up{idx}", "int8")
